@@ -38,7 +38,15 @@ fn grammar_text(id: &str) -> Option<&'static str> {
     }
 }
 
-fn prefix_text(id: &str) -> &'static str {
+/// `wide`: the same prefixes spelled with characters of 2, 3 and 4 bytes (byte length != character count)
+fn prefix_text(id: &str, wide: bool) -> &'static str {
+    if wide {
+        match id {
+            "p" => return "// \u{e9}\u{20ac}\u{1d11e} p",
+            "pq" => return "// \u{e9}\u{20ac}\u{1d11e} p q",
+            _ => {}
+        }
+    }
     match id {
         "" => "",
         "p" => "// p",
@@ -142,6 +150,10 @@ fn main() {
         let line = line.unwrap();
         let p: Vec<&str> = line.split('\t').collect();
         let (mode, format, steps) = (p[0], p[1] == "1", p[2]);
+        let (mode, wide) = match mode.strip_suffix("+wide") {
+            Some(m) => (m, true),
+            None => (mode, false),
+        };
         if mode == "dir2" {
             let dir = root.join(format!("d{}", n % 64));
             writeln!(out, "{}", replay_dir2(&dir, steps)).unwrap();
@@ -186,10 +198,10 @@ fn main() {
                 if before.is_some() {
                     std::fs::File::options().write(true).open(&dest_path).unwrap().set_modified(old).unwrap();
                 }
-                let key = (src.clone(), prefix.clone(), format);
+                let key = (src.clone(), format!("{prefix}{wide}"), format);
                 let exp = cache
                     .entry(key)
-                    .or_insert_with(|| expected(&dir, &src, prefix_text(&prefix), format))
+                    .or_insert_with(|| expected(&dir, &src, prefix_text(&prefix, wide), format))
                     .clone();
                 let was_current = before.is_some() && before == exp;
                 let mut c = match mode {
@@ -197,7 +209,7 @@ fn main() {
                     "dest" => Compile::file(&src_path).destination(&dest_path),
                     _ => Compile::file(&src_path),
                 };
-                c = c.prefix(prefix_text(&prefix).to_string());
+                c = c.prefix(prefix_text(&prefix, wide).to_string());
                 if format {
                     c = c.format();
                 }
